@@ -151,6 +151,16 @@ pub fn one(ctx: &mut Ctx, plan: &Plan) -> bool {
             let cline = format!("enc C {}{}", plan.text(), tables);
             let cb = commit.to_vec_without_witness();
             ctx.op(&cline, &format!("prog={}", gen::hex(&cb)));
+            // commitment-time identity roots, node by node (the encoder shares by them)
+            let aligned = gen::align_commit(plan, &commit);
+            let items: Vec<String> = (0..plan.nodes.len())
+                .map(|i| match &aligned[i] {
+                    None => ".".to_string(),
+                    Some(n) => n.ihr().map(|h| gen::hex(h.as_ref())).unwrap_or_else(|| "-".to_string()),
+                })
+                .collect();
+            ctx.op(&format!("cihr {}{}", plan.text(), tables), &format!("ihrs {}", items.join(" ")));
+            ctx.count("reach:commit-identity-roots-compared");
             for k in plan.kinds() {
                 ctx.count(&format!("reach:commit-{k}"));
             }
@@ -210,7 +220,53 @@ fn witness_zoo(ctx: &mut Ctx) -> bool {
     }
 }
 
+/// `assertl x H` and `assertr H x` over the same `x` and the same hidden root in one program: at
+/// commitment time the two have different identity roots (left and right are not interchangeable)
+/// and must both survive the round trip
+fn twin_assertions(ctx: &mut Ctx) {
+    use PNode::*;
+    for shape in 0..3 {
+        let mut h = [0u8; 32];
+        h.copy_from_slice(&ctx.rng.bytes(32));
+        let mut nodes: Vec<PNode> = vec![];
+        let mut push = |nodes: &mut Vec<PNode>, n: PNode| {
+            nodes.push(n);
+            nodes.len() - 1
+        };
+        // x : A × C → D, used under both assertions (one node object: the two summands coincide)
+        let x = match shape {
+            0 => push(&mut nodes, Unit),
+            1 => {
+                let i = push(&mut nodes, Iden);
+                push(&mut nodes, Drop(i))
+            }
+            _ => {
+                let u = push(&mut nodes, Unit);
+                push(&mut nodes, Take(u))
+            }
+        };
+        let al = push(&mut nodes, AssertL(x, h));
+        let ar = push(&mut nodes, AssertR(h, x));
+        let mut side = |nodes: &mut Vec<PNode>, left: bool, a: usize| {
+            let u = push(nodes, Unit);
+            let inj = push(nodes, if left { InjL(u) } else { InjR(u) });
+            let u2 = push(nodes, Unit);
+            let p = push(nodes, Pair(inj, u2));
+            push(nodes, Comp(p, a))
+        };
+        let l = side(&mut nodes, true, al);
+        let r = side(&mut nodes, false, ar);
+        let p = push(&mut nodes, Pair(l, r));
+        let u = push(&mut nodes, Unit);
+        push(&mut nodes, Comp(p, u));
+        if one(ctx, &Plan { nodes }) {
+            ctx.count("reach:twin-assertions");
+        }
+    }
+}
+
 pub fn run(ctx: &mut Ctx) {
+    twin_assertions(ctx);
     let nz = ctx.scale(250, 8000);
     let mut done = 0;
     for _ in 0..20 * nz {
